@@ -78,80 +78,141 @@ theorem writes_duplicate_key_order_dependent :
     applyWrites (fun _ => none) [([1], [10]), ([1], [20])] [1] ≠ applyWrites (fun _ => none) [([1], [20]), ([1], [10])] [1] := by
   decide
 
-/-! ### T4 check_genesis_sound -/
+/-! ### T4 check_genesis_sound
+
+The validators as repaired by 842d79c (contract without entry), bf6e6a8 (two entries for one address), 5b5b1ec (nil /
+negative amount), 4c4dee5 (MaxSupply). Every statement below is about `checkGenesis`, the function the driver evaluates
+on each `gen-check` line of the stream, and about `ledgerBalance` / `ledgerSupply`, the specification of what
+`NewGenesis` stores (one balance per (address, token), the absolute value of the last amount written) — which the
+stream's ledger monitor compares with a chain really started from the accepted configuration.
+
+The only hypothesis left is `Config.WF` (the keys of one `BalanceList` are distinct), and only for the supply clause: it is
+the representation invariant of a Go map, not a class of inputs — no `GenesisConfig` value and no JSON file violates it
+(`supply_needs_wf` shows the association-list model would otherwise count a repeated key twice). -/
 
 /-- `CheckGenesis` calls the five validators in the order the model uses -/
 theorem check_order_fact : Gen.checkGenesisOrder =
     ["CheckFieldsExist", "CheckPlasmaInfo", "CheckSwapAccount", "CheckPillarBalance", "CheckTokenTotalSupply"] := by decide
 
-/-- T4a: accepted ⇒ for every declared token, the amounts of ALL balance entries of that token add up to TotalSupply,
-    and the token is given at least once. (Full strength of what the code checks.) -/
-theorem check_genesis_entries_sum (c : Config) (h : checkGenesis c = .ok) :
-    ∀ t ∈ c.tokens, givenSum c t.zts = t.total ∧ givenHas c t.zts = true := by
+/-- the refusals of `checkAccountBalance` and `CheckTokenTotalSupply` (every `return errors.Errorf`, with the loops and
+    conditions it sits under, in source order — read from the AST of the tree) are the ones `Model.checkAccountBalance`
+    (`blockOK`, then `!found`) and `Model.checkTokenTotalSupply` (`scanBlocks`, `tokenOK`, declared) were written for -/
+theorem validator_refusals_fact :
+    Gen.gnCheckAccountBalanceRefusals =
+      ["range g.GenesisBlocks.Blocks / range block.BalanceList / !ok",
+       "range g.GenesisBlocks.Blocks / range block.BalanceList / !(!ok) / requiredAmount.Cmp(amount) != 0",
+       "range g.GenesisBlocks.Blocks / range required / !ok && required[token].Cmp(common.Big0) != 0",
+       "!found / range required / amount.Cmp(common.Big0) != 0"] ∧
+    Gen.gnCheckTokenTotalSupplyRefusals =
+      ["range g.GenesisBlocks.Blocks / seen[block.Address]",
+       "range g.GenesisBlocks.Blocks / range block.BalanceList / amount == nil || amount.Sign() < 0",
+       "range g.TokenConfig.Tokens / !ok",
+       "range g.TokenConfig.Tokens / !(!ok) / token.TotalSupply.Cmp(total) != 0",
+       "range g.TokenConfig.Tokens / token.MaxSupply == nil || token.TotalSupply.Cmp(token.MaxSupply) > 0",
+       "range given / !found"] := by decide
+
+theorem check_supply_parts (c : Config) (h : checkGenesis c = .ok) :
+    scanBlocks [] c.blocks = true ∧ (∀ t ∈ c.tokens, tokenOK c t = true) ∧
+      ∀ e ∈ givenEntries c, (c.tokens.any (fun t => t.zts = e.1)) = true := by
   have h5 := (checkGenesis_ok c h).2.2.2.2
   unfold checkTokenTotalSupply at h5
-  rw [Bool.and_eq_true, List.all_eq_true] at h5
+  rw [Bool.and_eq_true, Bool.and_eq_true, List.all_eq_true, List.all_eq_true] at h5
+  exact ⟨h5.1.1, h5.1.2, h5.2⟩
+
+/-- T4a: accepted ⇒ for every declared token, the amounts of ALL balance entries of that token add up to TotalSupply,
+    and the token is given at least once. -/
+theorem check_genesis_entries_sum (c : Config) (h : checkGenesis c = .ok) :
+    ∀ t ∈ c.tokens, givenSum c t.zts = t.total ∧ givenHas c t.zts = true := by
   intro t ht
-  have := h5.1 t ht
-  simp only [Bool.and_eq_true, beq_iff_eq] at this
-  exact ⟨this.2.symm, this.1⟩
+  have := (check_supply_parts c h).2.1 t ht
+  simp only [tokenOK, Bool.and_eq_true, beq_iff_eq] at this
+  exact ⟨this.1.2.symm, this.1.1⟩
 
 /-- T4b: accepted ⇒ every token given in any balance list is declared. -/
 theorem check_genesis_declared (c : Config) (h : checkGenesis c = .ok) :
     ∀ b ∈ c.blocks, ∀ e ∈ b.bal, ∃ t ∈ c.tokens, t.zts = e.1 := by
-  have h5 := (checkGenesis_ok c h).2.2.2.2
-  unfold checkTokenTotalSupply at h5
-  rw [Bool.and_eq_true, List.all_eq_true, List.all_eq_true] at h5
   intro b hb e he
   have hm : e ∈ givenEntries c := List.mem_flatMap.2 ⟨b, hb, he⟩
-  have := h5.2 e hm
+  have := (check_supply_parts c h).2.2 e hm
   simp only [List.any_eq_true, decide_eq_true_eq] at this
   exact this
 
-/-- T4c `check_genesis_sound_partial` (supply): accepted ⇒ the LEDGER balances of every declared token add up to its
-    TotalSupply — under two extra premises the code never checks: no address has two `GenesisBlocks` entries
-    (`supply_duplicate_entry_accepted`) and no amount is negative (`supply_negative_entry_accepted`: the ledger keeps
-    the absolute value). -/
-theorem check_genesis_supply_partial (c : Config) (hwf : c.WF) (h : checkGenesis c = .ok)
-    (hnd : (c.blocks.map (·.addr)).Nodup) (hnn : c.NonNeg) : ∀ t ∈ c.tokens, ledgerSupply c t.zts = t.total := by
+/-- T4g (F13b, F13e repaired): accepted ⇒ no address has two `GenesisBlocks` entries, and no amount of any balance list
+    is missing (nil) or negative. No hypothesis. -/
+theorem check_genesis_entries_wellformed (c : Config) (h : checkGenesis c = .ok) :
+    (c.blocks.map (·.addr)).Nodup ∧ ∀ b ∈ c.blocks, ∀ e ∈ b.bal, ∃ a : Int, e.2 = some a ∧ 0 ≤ a := by
+  obtain ⟨_, hnd, hok⟩ := scanBlocks_spec [] c.blocks (check_supply_parts c h).1
+  exact ⟨hnd, fun b hb e he => amountOK_spec e.2 (hok b hb e he)⟩
+
+/-- T4h: accepted ⇒ the ledger holds, for every address and token, exactly the amount the (one) entry of the address
+    lists — nothing for a token the entry does not list, nothing at all for an address without entry — and no balance
+    is negative. No hypothesis. -/
+theorem check_genesis_ledger (c : Config) (h : checkGenesis c = .ok) :
+    (∀ b ∈ c.blocks, ∀ z, ledgerBalance c b.addr z = listed b.bal z) ∧
+      (∀ a, a ∉ c.blocks.map (·.addr) → ∀ z, ledgerBalance c a z = 0) ∧
+      ∀ a z, 0 ≤ ledgerBalance c a z := by
+  obtain ⟨_, hnd, hok⟩ := scanBlocks_spec [] c.blocks (check_supply_parts c h).1
+  have h1 : ∀ b ∈ c.blocks, ∀ z, ledgerBalance c b.addr z = listed b.bal z :=
+    fun b hb z => ledgerBalance_single c hnd hok b hb z
+  have h2 : ∀ a, a ∉ c.blocks.map (·.addr) → ∀ z, ledgerBalance c a z = 0 :=
+    fun a ha z => ledgerBalance_absent c a ha z
+  refine ⟨h1, h2, ?_⟩
+  intro a z
+  by_cases ha : a ∈ c.blocks.map (·.addr)
+  · obtain ⟨b, hb, rfl⟩ := List.mem_map.1 ha
+    rw [h1 b hb z]
+    exact listed_nonneg b.bal z (hok b hb)
+  · rw [h2 a ha z]; exact Int.le_refl 0
+
+/-- T4c `check_genesis_supply` (was `check_genesis_supply_partial`; the premises "one entry per address" and "no
+    negative amount" are now consequences of acceptance): accepted ⇒ for every declared token the LEDGER balances — one
+    per (address, token), as `NewGenesis` stores them — add up to its TotalSupply, MaxSupply is present and
+    0 ≤ TotalSupply ≤ MaxSupply. `hwf`: see the header of this section. -/
+theorem check_genesis_supply (c : Config) (hwf : c.WF) (h : checkGenesis c = .ok) :
+    ∀ t ∈ c.tokens, ledgerSupply c t.zts = t.total ∧ 0 ≤ t.total ∧ ∃ m : Int, t.max = some m ∧ t.total ≤ m := by
   intro t ht
-  rw [ledgerSupply_eq_givenSum c hwf hnn hnd]
-  exact (check_genesis_entries_sum c h t ht).1
+  obtain ⟨hscan, htok, _⟩ := check_supply_parts c h
+  have hs : ledgerSupply c t.zts = t.total := by
+    rw [ledgerSupply_eq_givenSum c hwf hscan]
+    exact (check_genesis_entries_sum c h t ht).1
+  refine ⟨hs, ?_, ?_⟩
+  · rw [← hs]
+    unfold ledgerSupply
+    apply isum_nonneg
+    intro x hx
+    obtain ⟨a, _, rfl⟩ := List.mem_map.1 hx
+    exact (check_genesis_ledger c h).2.2 a t.zts
+  · have := htok t ht
+    simp only [tokenOK, Bool.and_eq_true] at this
+    have hm := this.2
+    unfold maxOK at hm
+    cases hmax : t.max with
+    | none => simp [hmax] at hm
+    | some m => exact ⟨m, rfl, by simpa [hmax] using hm⟩
 
-/-- negative witness: entries of −7 and +12, TotalSupply 5 — accepted, the ledger holds 7 + 12 = 19. -/
-theorem supply_negative_entry_accepted :
-    ∃ c : Config, c.WF ∧ (c.blocks.map (·.addr)).Nodup ∧ checkGenesis c = .ok ∧
-      ∃ t ∈ c.tokens, ledgerSupply c t.zts ≠ t.total := by
-  refine ⟨{ blocks := [⟨[0, 7], [(Gen.ZnnTokenStandard, -7)]⟩, ⟨[0, 8], [(Gen.ZnnTokenStandard, 12)]⟩],
-            tokens := [⟨Gen.ZnnTokenStandard, 5, 100⟩] }, ?_, by decide, by decide,
-          ⟨Gen.ZnnTokenStandard, 5, 100⟩, by simp, by decide⟩
-  intro b hb
-  simp only [List.mem_cons, List.mem_nil_iff, or_false] at hb
-  rcases hb with rfl | rfl <;> simp
+/-- the association-list model needs `WF` for the supply clause: one (impossible in Go) balance list with the key
+    repeated is accepted with TotalSupply 10 while a map — and the ledger — holds 5 -/
+theorem supply_needs_wf :
+    ∃ c : Config, checkGenesis c = .ok ∧ ¬ c.WF ∧ ∃ t ∈ c.tokens, ledgerSupply c t.zts ≠ t.total := by
+  refine ⟨{ blocks := [⟨[0, 7], [(Gen.ZnnTokenStandard, some 5), (Gen.ZnnTokenStandard, some 5)]⟩],
+            tokens := [⟨Gen.ZnnTokenStandard, 10, some 100⟩] }, by decide, ?_, ⟨Gen.ZnnTokenStandard, 10, some 100⟩, by simp, by decide⟩
+  intro hwf
+  have := hwf ⟨[0, 7], [(Gen.ZnnTokenStandard, some 5), (Gen.ZnnTokenStandard, some 5)]⟩ (by simp)
+  simp at this
 
-/-- negative witness: one address with two entries of 5, TotalSupply 10 — accepted, the ledger holds 5. -/
-theorem supply_duplicate_entry_accepted :
-    ∃ c : Config, c.WF ∧ checkGenesis c = .ok ∧ ∃ t ∈ c.tokens, ledgerSupply c t.zts ≠ t.total := by
-  refine ⟨{ blocks := [⟨[0, 7], [(Gen.ZnnTokenStandard, 5)]⟩, ⟨[0, 7], [(Gen.ZnnTokenStandard, 5)]⟩],
-            tokens := [⟨Gen.ZnnTokenStandard, 10, 100⟩] }, ?_, by decide, ⟨Gen.ZnnTokenStandard, 10, 100⟩, by simp, by decide⟩
-  intro b hb
-  simp only [List.mem_cons, List.mem_nil_iff, or_false, or_self] at hb
-  subst hb
-  simp
-
-/-- T4d `check_genesis_sound_partial` (plasma): accepted ⇒ the plasma contract holds exactly (the absolute value
-    of — amounts are stored unsigned) the sum of the fusions in QSR and nothing else — under the extra premise that the plasma contract HAS a `GenesisBlocks` entry (or the
-    fusions add up to zero). `checkAccountBalance` returns nil when there is no entry (`plasma_no_entry_accepted`). -/
-theorem check_genesis_plasma_partial (c : Config) (h : checkGenesis c = .ok)
-    (hex : fusionSum c = 0 ∨ ∃ b ∈ c.blocks, b.addr = Gen.PlasmaContract) :
-    ledgerBalance c Gen.PlasmaContract Gen.QsrTokenStandard = stored (fusionSum c) ∧
-      (0 ≤ fusionSum c → ledgerBalance c Gen.PlasmaContract Gen.QsrTokenStandard = fusionSum c) ∧
+/-- T4d `check_genesis_plasma` (was `check_genesis_plasma_partial`; the premise "the plasma contract has a
+    `GenesisBlocks` entry or the fusions add up to zero" is now checked by `checkAccountBalance`): accepted ⇒ the plasma
+    contract holds exactly the sum of the fusions in QSR — the value itself, it is not negative — and nothing else.
+    No hypothesis. -/
+theorem check_genesis_plasma (c : Config) (h : checkGenesis c = .ok) :
+    ledgerBalance c Gen.PlasmaContract Gen.QsrTokenStandard = fusionSum c ∧ 0 ≤ fusionSum c ∧
       ∀ z, z ≠ Gen.QsrTokenStandard → ledgerBalance c Gen.PlasmaContract z = 0 := by
   have h2 := (checkGenesis_ok c h).2.1
   unfold checkPlasmaInfo at h2
   rw [Bool.and_eq_true] at h2
-  have hq := held_required c _ _ h2.2 Gen.QsrTokenStandard (fusionSum c) (by simp [lookup]) hex
-  refine ⟨hq, fun h0 => by rw [hq, stored_nonneg _ h0], ?_⟩
+  have hq := held_required c _ _ h2.2 Gen.QsrTokenStandard (fusionSum c) (by simp [lookup])
+  have h0 := required_nonneg c _ _ h2.2 (check_supply_parts c h).1 Gen.QsrTokenStandard (fusionSum c) (by simp [lookup])
+  refine ⟨by rw [hq, stored_nonneg _ h0], h0, ?_⟩
   intro z hz
   exact held_not_required c _ _ h2.2 z (by simp [lookup, Ne.symm hz])
 
@@ -162,63 +223,126 @@ theorem check_genesis_fusions_present (c : Config) (h : checkGenesis c = .ok) : 
   rw [Bool.and_eq_true, List.all_eq_true] at h2
   exact h2.1
 
-/-- negative witness (F13): fusions of 5 QSR, no plasma-contract entry, supplies consistent — accepted; the plasma
-    contract holds nothing. -/
-theorem plasma_no_entry_accepted :
-    ∃ c : Config, c.WF ∧ checkGenesis c = .ok ∧
-      ledgerBalance c Gen.PlasmaContract Gen.QsrTokenStandard ≠ fusionSum c := by
-  refine ⟨{ blocks := [⟨[0, 7], [(Gen.QsrTokenStandard, 9)]⟩], tokens := [⟨Gen.QsrTokenStandard, 9, 100⟩],
-            fusions := [some 5] }, ?_, by decide, by decide⟩
-  intro b hb
-  simp only [List.mem_cons, List.mem_nil_iff, or_false] at hb
-  subst hb
-  simp
+/-- what T4d does NOT say: the sign of an INDIVIDUAL fusion amount (pillar stake, swap amount) is looked at by no
+    validator — only the sum is compared with the contract's balance. Fusions of −5 and +12 with a plasma balance of 7
+    are accepted (by the real `CheckGenesis` as well); `fusionSum` is the signed sum the validator computes. -/
+theorem fusion_signs_unchecked :
+    checkGenesis { blocks := [⟨Gen.PlasmaContract, [(Gen.QsrTokenStandard, some 7)]⟩],
+                   tokens := [⟨Gen.QsrTokenStandard, 7, some 100⟩], fusions := [some (-5), some 12] } = .ok := by decide
 
-/-- T4e (pillar): accepted ⇒ the pillar contract holds exactly the sum of the pillar stakes in ZNN and nothing else —
-    same extra premise, same gap. -/
-theorem check_genesis_pillar_partial (c : Config) (h : checkGenesis c = .ok)
-    (hex : pillarSum c = 0 ∨ ∃ b ∈ c.blocks, b.addr = Gen.PillarContract) :
-    ledgerBalance c Gen.PillarContract Gen.ZnnTokenStandard = stored (pillarSum c) ∧
-      (0 ≤ pillarSum c → ledgerBalance c Gen.PillarContract Gen.ZnnTokenStandard = pillarSum c) ∧
+/-- T4e `check_genesis_pillar` (was `check_genesis_pillar_partial`): accepted ⇒ the pillar contract holds exactly the
+    sum of the pillar stakes in ZNN and nothing else. No hypothesis. -/
+theorem check_genesis_pillar (c : Config) (h : checkGenesis c = .ok) :
+    ledgerBalance c Gen.PillarContract Gen.ZnnTokenStandard = pillarSum c ∧ 0 ≤ pillarSum c ∧
       ∀ z, z ≠ Gen.ZnnTokenStandard → ledgerBalance c Gen.PillarContract z = 0 := by
   have h4 := (checkGenesis_ok c h).2.2.2.1
   unfold checkPillarBalance at h4
-  have hq := held_required c _ _ h4 Gen.ZnnTokenStandard (pillarSum c) (by simp [lookup]) hex
-  refine ⟨hq, fun h0 => by rw [hq, stored_nonneg _ h0], ?_⟩
+  have hq := held_required c _ _ h4 Gen.ZnnTokenStandard (pillarSum c) (by simp [lookup])
+  have h0 := required_nonneg c _ _ h4 (check_supply_parts c h).1 Gen.ZnnTokenStandard (pillarSum c) (by simp [lookup])
+  refine ⟨by rw [hq, stored_nonneg _ h0], h0, ?_⟩
   intro z hz
   exact held_not_required c _ _ h4 z (by simp [lookup, Ne.symm hz])
 
-theorem pillar_no_entry_accepted :
-    ∃ c : Config, c.WF ∧ checkGenesis c = .ok ∧
-      ledgerBalance c Gen.PillarContract Gen.ZnnTokenStandard ≠ pillarSum c := by
-  refine ⟨{ blocks := [⟨[0, 7], [(Gen.ZnnTokenStandard, 9)]⟩], tokens := [⟨Gen.ZnnTokenStandard, 9, 100⟩],
-            pillars := [15000] }, ?_, by decide, by decide⟩
-  intro b hb
-  simp only [List.mem_cons, List.mem_nil_iff, or_false] at hb
-  subst hb
-  simp
-
-/-- T4f (swap): accepted ⇒ the swap contract holds nothing, of any token. Full strength, no extra premise. -/
+/-- T4f (swap): accepted ⇒ the swap contract holds nothing, of any token. No hypothesis. -/
 theorem check_genesis_swap (c : Config) (h : checkGenesis c = .ok) : ∀ z, ledgerBalance c Gen.SwapContract z = 0 := by
   have h3 := (checkGenesis_ok c h).2.2.1
   unfold checkSwapAccount at h3
   rw [Bool.and_eq_true] at h3
   intro z
   by_cases hz1 : Gen.ZnnTokenStandard = z
-  · exact held_required c _ _ h3.2 z 0 (by simp [lookup, hz1]) (Or.inl rfl)
+  · exact held_required c _ _ h3.2 z 0 (by simp [lookup, hz1])
   · by_cases hz2 : Gen.QsrTokenStandard = z
-    · exact held_required c _ _ h3.2 z 0 (by simp [lookup, hz1, hz2]) (Or.inl rfl)
+    · exact held_required c _ _ h3.2 z 0 (by simp [lookup, hz1, hz2])
     · exact held_not_required c _ _ h3.2 z (by simp [lookup, hz1, hz2])
 
-/-- `TotalSupply ≤ MaxSupply` is not checked at all: negative witness. -/
-theorem max_supply_unchecked :
-    ∃ c : Config, c.WF ∧ checkGenesis c = .ok ∧ ∃ t ∈ c.tokens, t.total > t.max := by
-  refine ⟨{ blocks := [⟨[0, 7], [(Gen.ZnnTokenStandard, 9)]⟩], tokens := [⟨Gen.ZnnTokenStandard, 9, 8⟩] },
-    ?_, by decide, ⟨Gen.ZnnTokenStandard, 9, 8⟩, by simp, by decide⟩
-  intro b hb
-  simp only [List.mem_cons, List.mem_nil_iff, or_false] at hb
-  subst hb
-  simp
+/-- T4 `check_genesis_sound`: the sentence of the property in one statement. A configuration `CheckGenesis` accepts
+    yields a ledger in which, for every declared token, the balances add up to TotalSupply with
+    0 ≤ TotalSupply ≤ MaxSupply; every token held is declared; no balance is negative; the plasma contract holds exactly
+    Σ fusions of QSR, the pillar contract exactly Σ pillar stakes of ZNN, neither anything else, the swap contract
+    nothing. -/
+theorem check_genesis_sound (c : Config) (hwf : c.WF) (h : checkGenesis c = .ok) :
+    (∀ t ∈ c.tokens, ledgerSupply c t.zts = t.total ∧ 0 ≤ t.total ∧ ∃ m : Int, t.max = some m ∧ t.total ≤ m) ∧
+    (∀ b ∈ c.blocks, ∀ e ∈ b.bal, ∃ t ∈ c.tokens, t.zts = e.1) ∧
+    (∀ a z, 0 ≤ ledgerBalance c a z) ∧
+    (ledgerBalance c Gen.PlasmaContract Gen.QsrTokenStandard = fusionSum c ∧
+      ∀ z, z ≠ Gen.QsrTokenStandard → ledgerBalance c Gen.PlasmaContract z = 0) ∧
+    (ledgerBalance c Gen.PillarContract Gen.ZnnTokenStandard = pillarSum c ∧
+      ∀ z, z ≠ Gen.ZnnTokenStandard → ledgerBalance c Gen.PillarContract z = 0) ∧
+    (∀ z, ledgerBalance c Gen.SwapContract z = 0) :=
+  ⟨check_genesis_supply c hwf h, check_genesis_declared c h, (check_genesis_ledger c h).2.2,
+   ⟨(check_genesis_plasma c h).1, (check_genesis_plasma c h).2.2⟩,
+   ⟨(check_genesis_pillar c h).1, (check_genesis_pillar c h).2.2⟩, check_genesis_swap c h⟩
+
+/-- the clause of the property as it is worded ("a configuration whose balances do not add up to the declared token
+    supplies and contract holdings is rejected"): contrapositive of `check_genesis_sound` -/
+theorem inconsistent_rejected (c : Config) (hwf : c.WF)
+    (hbad : (∃ t ∈ c.tokens, ledgerSupply c t.zts ≠ t.total ∨ t.max = none ∨ ∃ m : Int, t.max = some m ∧ m < t.total) ∨
+      ledgerBalance c Gen.PlasmaContract Gen.QsrTokenStandard ≠ fusionSum c ∨
+      ledgerBalance c Gen.PillarContract Gen.ZnnTokenStandard ≠ pillarSum c ∨
+      (∃ z, ledgerBalance c Gen.SwapContract z ≠ 0) ∨
+      (∃ b ∈ c.blocks, ∃ e ∈ b.bal, e.2 = none ∨ ∃ a : Int, e.2 = some a ∧ a < 0) ∨
+      ¬ (c.blocks.map (·.addr)).Nodup) : checkGenesis c ≠ .ok := by
+  intro h
+  rcases hbad with ⟨t, ht, hb⟩ | hb | hb | ⟨z, hz⟩ | ⟨b, hb, e, he, hbad⟩ | hb
+  · obtain ⟨h1, _, m, hm, hle⟩ := check_genesis_supply c hwf h t ht
+    rcases hb with hb | hb | ⟨m', hm', hlt⟩
+    · exact hb h1
+    · rw [hm] at hb; cases hb
+    · rw [hm] at hm'; cases hm'; omega
+  · exact hb (check_genesis_plasma c h).1
+  · exact hb (check_genesis_pillar c h).1
+  · exact hz (check_genesis_swap c h z)
+  · obtain ⟨a, ha, h0⟩ := (check_genesis_entries_wellformed c h).2 b hb e he
+    rcases hbad with hn | ⟨a', ha', hneg⟩
+    · rw [ha] at hn; cases hn
+    · rw [ha] at ha'; cases ha'; omega
+  · exact hb (check_genesis_entries_wellformed c h).1
+
+/-! #### the former negative witnesses: the same concrete configurations are now refused -/
+
+/-- F13e (was `supply_negative_entry_accepted`): entries of −7 and +12, TotalSupply 5 — refused by `CheckTokenTotalSupply` -/
+theorem supply_negative_entry_rejected :
+    checkGenesis { blocks := [⟨[0, 7], [(Gen.ZnnTokenStandard, some (-7))]⟩, ⟨[0, 8], [(Gen.ZnnTokenStandard, some 12)]⟩],
+                   tokens := [⟨Gen.ZnnTokenStandard, 5, some 100⟩] } = .supply := by decide
+
+/-- F13e, nil half: a missing amount is refused as well (before 5b5b1ec the validator dereferenced it) -/
+theorem supply_missing_amount_rejected :
+    checkGenesis { blocks := [⟨[0, 7], [(Gen.ZnnTokenStandard, none)]⟩, ⟨[0, 8], [(Gen.ZnnTokenStandard, some 5)]⟩],
+                   tokens := [⟨Gen.ZnnTokenStandard, 5, some 100⟩] } = .supply := by decide
+
+/-- F13b (was `supply_duplicate_entry_accepted`): one address with two entries of 5, TotalSupply 10 — refused -/
+theorem supply_duplicate_entry_rejected :
+    checkGenesis { blocks := [⟨[0, 7], [(Gen.ZnnTokenStandard, some 5)]⟩, ⟨[0, 7], [(Gen.ZnnTokenStandard, some 5)]⟩],
+                   tokens := [⟨Gen.ZnnTokenStandard, 10, some 100⟩] } = .supply := by decide
+
+/-- F13a (was `plasma_no_entry_accepted`): fusions of 5 QSR, no plasma-contract entry, supplies consistent — refused by
+    `CheckPlasmaInfo` -/
+theorem plasma_no_entry_rejected :
+    checkGenesis { blocks := [⟨[0, 7], [(Gen.QsrTokenStandard, some 9)]⟩], tokens := [⟨Gen.QsrTokenStandard, 9, some 100⟩],
+                   fusions := [some 5] } = .plasma := by decide
+
+/-- F13a (was `pillar_no_entry_accepted`): a pillar stake of 15000, no pillar-contract entry — refused by `CheckPillarBalance` -/
+theorem pillar_no_entry_rejected :
+    checkGenesis { blocks := [⟨[0, 7], [(Gen.ZnnTokenStandard, some 9)]⟩], tokens := [⟨Gen.ZnnTokenStandard, 9, some 100⟩],
+                   pillars := [15000] } = .pillar := by decide
+
+/-- … while a contract without entry is still fine when nothing is required of it (no fusions, no pillars, swap) -/
+theorem no_entry_nothing_required_accepted :
+    checkGenesis { blocks := [⟨[0, 7], [(Gen.ZnnTokenStandard, some 9)]⟩], tokens := [⟨Gen.ZnnTokenStandard, 9, some 100⟩] } = .ok := by
+  decide
+
+/-- F13c (was `max_supply_unchecked`): TotalSupply 9 above MaxSupply 8 — refused; so is a missing MaxSupply;
+    TotalSupply = MaxSupply is the accepted boundary -/
+theorem max_supply_checked :
+    checkGenesis { blocks := [⟨[0, 7], [(Gen.ZnnTokenStandard, some 9)]⟩], tokens := [⟨Gen.ZnnTokenStandard, 9, some 8⟩] } = .supply ∧
+    checkGenesis { blocks := [⟨[0, 7], [(Gen.ZnnTokenStandard, some 9)]⟩], tokens := [⟨Gen.ZnnTokenStandard, 9, none⟩] } = .supply ∧
+    checkGenesis { blocks := [⟨[0, 7], [(Gen.ZnnTokenStandard, some 9)]⟩], tokens := [⟨Gen.ZnnTokenStandard, 9, some 9⟩] } = .ok := by
+  decide
+
+/-- order of the validators when several refuse: an unbacked plasma contract AND a supply above its maximum is the plasma
+    refusal (the earlier validator) -/
+example : checkGenesis { blocks := [⟨[0, 7], [(Gen.QsrTokenStandard, some 9)]⟩], tokens := [⟨Gen.QsrTokenStandard, 9, some 8⟩],
+                         fusions := [some 5] } = .plasma := by decide
 
 /-- consequence used by the stream: changing one declared supply of an accepted configuration (everything else
     equal) is rejected -/
@@ -231,11 +355,11 @@ theorem supply_change_rejected (c c' : Config) (h : checkGenesis c = .ok) (hb : 
   have : givenSum c' t'.zts = givenSum c t.zts := by simp [givenSum, givenEntries, hb, hz]
   omega
 
-/-- hypotheses are satisfiable: a small consistent configuration with both contract entries is accepted -/
-example : checkGenesis { blocks := [⟨Gen.PillarContract, [(Gen.ZnnTokenStandard, 15)]⟩,
-                                    ⟨Gen.PlasmaContract, [(Gen.QsrTokenStandard, 7)]⟩,
-                                    ⟨[0, 7], [(Gen.ZnnTokenStandard, 5), (Gen.QsrTokenStandard, 3)]⟩],
-                         tokens := [⟨Gen.ZnnTokenStandard, 20, 100⟩, ⟨Gen.QsrTokenStandard, 10, 100⟩],
+/-- hypotheses are satisfiable: a small consistent configuration with both contract entries is accepted (and is `WF`) -/
+example : checkGenesis { blocks := [⟨Gen.PillarContract, [(Gen.ZnnTokenStandard, some 15)]⟩,
+                                    ⟨Gen.PlasmaContract, [(Gen.QsrTokenStandard, some 7)]⟩,
+                                    ⟨[0, 7], [(Gen.ZnnTokenStandard, some 5), (Gen.QsrTokenStandard, some 3)]⟩],
+                         tokens := [⟨Gen.ZnnTokenStandard, 20, some 100⟩, ⟨Gen.QsrTokenStandard, 10, some 100⟩],
                          pillars := [15], fusions := [some 3, some 4], swaps := [(some 1, some 2)] } = .ok := by decide
 
 /-! ### T5 startup_compare -/
